@@ -12,6 +12,7 @@ import LarkVerif.Scan
 import LarkVerif.Transform
 import LarkVerif.TransformEmbed
 import LarkVerif.Cache
+import LarkVerif.Serialize
 import Std.Data.HashMap
 /-! Line-protocol driver: one JSON request per stdin line (`{"op": ...}`), one JSON answer per stdout line.
     Runs the *executable definitions the theorems are about*.  Not part of the proof library. -/
@@ -371,6 +372,31 @@ def runCache (j : Json) : Except String Json := do
   let whole := (run cacheEnv File.absent ops).2.map (fun ro => natJ ro.2)
   pure (Json.mkObj [("steps", Json.arr out), ("served", Json.arr whole.toArray)])
 
+open SerProto in
+partial def pvOf (j : Json) : Except String PV := do
+  match j with
+  | Json.null => pure PV.none
+  | Json.num n => pure (PV.int n.mantissa)
+  | Json.str s => pure (PV.str s)
+  | Json.arr a => pure (PV.list (← a.toList.mapM pvOf))
+  | Json.obj _ =>
+    match j.getObjVal? "fset" with
+    | .ok l => pure (PV.fset (← (← l.getArr?).toList.mapM pvOf))
+    | .error _ =>
+      let ks ← (← getArr j "keys").mapM (·.getStr?)
+      let vs ← (← getArr j "vals").mapM pvOf
+      pure (PV.dict ks vs)
+  | _ => throw "pv"
+
+open SerProto in
+partial def pvJ : PV → Json
+  | .none => Json.null
+  | .int n => Json.num (JsonNumber.fromInt n)
+  | .str s => Json.str s
+  | .list l => Json.arr (l.map pvJ).toArray
+  | .dict ks vs => Json.mkObj [("keys", Json.arr (ks.map Json.str).toArray), ("vals", Json.arr (vs.map pvJ).toArray)]
+  | .fset l => Json.mkObj [("fset", Json.arr (l.map pvJ).toArray)]
+
 def handle (j : Json) : Except String Json := do
   let op ← getStr j "op"
   match op with
@@ -419,6 +445,9 @@ def handle (j : Json) : Except String Json := do
   | "shape" => runShape j
   | "embed" => runEmbed j
   | "cache" => runCache j
+  | "ser" =>
+    let v ← pvOf (← j.getObjVal? "v")
+    pure (Json.mkObj [("ser", pvJ (SerProto.ser v)), ("round", pvJ (SerProto.deser (SerProto.ser v)))])
   | "transform" => runTransform j
   | "scan" =>
     let n ← getNat j "n"
